@@ -1,1 +1,94 @@
-From CMinx Require Import Base.Str.
+(* Properties/C03.v -- Function and macro signatures mirror the definition.
+   Only theorem statements; proofs are in Proofs/AggDefs.v.  Spec: Spec/AggSpec.v (nested view
+   node / flatten, has_cpa0 = a cmake_parse_arguments call at depth 0 of a body, i.e. outside any
+   nested definition) and Spec/EntrySpec.v (def_signature).  The three strip functions
+   (re.sub of the configured regexes) and the trigger string are parameters: the theorems hold for
+   all of them, in particular for patterns that would also match the function name. *)
+From Coq Require Import String List.
+From CMinx Require Import Base.Str Model.Lexer Model.Parser Model.Writer Model.DocTypes
+     Model.Aggregator Spec.EntrySpec Spec.AggSpec Proofs.AggInv Proofs.AggDefs.
+Import ListNotations.
+
+(* every function()/macro() pushes one frame, its end command pops one: balanced bodies restore
+   the definition stack (arbitrary nesting depth) *)
+Theorem C03_def_stack_restored :
+  forall fl trigger strip_fn strip_mac strip_mem nodes st st',
+    wf_nodes nodes = true ->
+    agg_run fl trigger strip_fn strip_mac strip_mem st (flatten_all nodes) = Ok st' ->
+    def_stack st' = def_stack st.
+Proof. exact def_stack_restored. Qed.
+Print Assumptions C03_def_stack_restored.
+
+(* the entry created by a definition header: name = first argument, never stripped; parameters =
+   the remaining arguments, stripped, in order; kwargs from the trigger string in the doccomment *)
+Theorem C03_def_entry_created :
+  forall fl trigger strip_fn strip_mac strip_mem doc hdr st st1,
+    is_def_cmd hdr = true ->
+    header_creates fl st doc hdr = true ->
+    agg_step fl trigger strip_fn strip_mac strip_mem st (elem_of doc hdr) = Ok st1 ->
+    exists name ps,
+      singles hdr = name :: ps
+      /\ fn_at st1 (length (documented st)) (kind_is hdr (s"macro")) name (doc_of doc)
+               (map (if kind_is hdr (s"macro") then strip_mac else strip_fn) ps)
+               (contains trigger (doc_of doc))
+      /\ length (documented st1) = S (length (documented st))
+      /\ def_stack st1 = Some (length (documented st)) :: def_stack st.
+Proof. exact def_entry_created. Qed.
+Print Assumptions C03_def_entry_created.
+
+(* the main theorem: after the whole definition, **kwargs iff the doccomment contains the
+   trigger or cmake_parse_arguments occurs in the body of that very definition at depth 0 *)
+Theorem C03_kwargs_iff :
+  forall fl trigger strip_fn strip_mac strip_mem doc hdr body endc st st',
+    wf_node (NDef doc hdr body endc) = true ->
+    header_creates fl st doc hdr = true ->
+    agg_run fl trigger strip_fn strip_mac strip_mem st (flatten (NDef doc hdr body endc)) = Ok st' ->
+    exists name ps,
+      singles hdr = name :: ps
+      /\ fn_at st' (length (documented st)) (kind_is hdr (s"macro")) name (doc_of doc)
+               (map (if kind_is hdr (s"macro") then strip_mac else strip_fn) ps)
+               (contains trigger (doc_of doc) || body_has_cpa0 body)
+      /\ def_stack st' = def_stack st.
+Proof. exact kwargs_iff. Qed.
+Print Assumptions C03_kwargs_iff.
+
+(* calls anywhere else never affect it: any later elements (siblings, later definitions, file
+   level), as long as no frame for the entry is on the stack *)
+Theorem C03_cpa_outside_never_marks :
+  forall fl trigger strip_fn strip_mac strip_mem es st st' j m nm d p k,
+    frames_avoid j (def_stack st) = true ->
+    fn_at st j m nm d p k ->
+    agg_run fl trigger strip_fn strip_mac strip_mem st es = Ok st' ->
+    fn_at st' j m nm d p k /\ frames_avoid j (def_stack st') = true.
+Proof. exact cpa_outside_never_marks. Qed.
+Print Assumptions C03_cpa_outside_never_marks.
+
+(* the same for a definition anywhere in a file, with no side condition on the state *)
+Theorem C03_kwargs_iff_in_file :
+  forall fl trigger strip_fn strip_mac strip_mem f pre doc hdr body endc post st'',
+    f_elems f = pre ++ flatten (NDef doc hdr body endc) ++ post ->
+    wf_node (NDef doc hdr body endc) = true ->
+    aggregate fl trigger strip_fn strip_mac strip_mem f = Ok st'' ->
+    exists st,
+      agg_run fl trigger strip_fn strip_mac strip_mem
+              (match f_module f with
+               | Some t => append (module_entry t) true agg_init
+               | None => agg_init
+               end) pre = Ok st
+      /\ (header_creates fl st doc hdr = true ->
+          exists name ps,
+            singles hdr = name :: ps
+            /\ fn_at st'' (length (documented st)) (kind_is hdr (s"macro")) name (doc_of doc)
+                     (map (if kind_is hdr (s"macro") then strip_mac else strip_fn) ps)
+                     (contains trigger (doc_of doc) || body_has_cpa0 body)).
+Proof. exact kwargs_iff_in_file. Qed.
+Print Assumptions C03_kwargs_iff_in_file.
+
+(* rendering: name(params) with **kwargs exactly once and last *)
+Theorem C03_kwargs_once_last :
+  forall m n d ps kw,
+    render_entry (EFunction m n d ps kw)
+    = Dir (s"function") [signature n (if kw then ps ++ [kwargs_lit] else ps)] []
+          ((if m then [Dir (s"note") [macro_note] [] []] else []) ++ [Para d]).
+Proof. exact kwargs_once_last. Qed.
+Print Assumptions C03_kwargs_once_last.
